@@ -62,6 +62,25 @@ func gen(r *rand.Rand) reconlib.Scenario {
 	return s
 }
 
+// decorate adds the logger delays and the directed combination to a generated scenario.
+func decorate(r *rand.Rand, index int, s reconlib.Scenario) reconlib.Scenario {
+	if r.Intn(3) == 0 {
+		// the application's logger blocks for a while at one step of the reconnect / resume procedure
+		s.SlowLog = reconlib.SlowLogSites[r.Intn(len(reconlib.SlowLogSites))]
+		s.SlowLogMs = []int{300, 3000, 10000}[r.Intn(3)]
+	}
+	if index%8 == 7 {
+		// directed combination: the retry's link dies right after the stream's resume response and the supervisor is
+		// held up in its "resumed" log call until the next connection is already there (a complete outage passes
+		// between the resume and the restart of the stream's loops)
+		f := &s.Faults[0]
+		f.NextLink = []memnet.Trigger{{Dir: memnet.S2C, Class: "UpstreamResumeResponse", Ordinal: 1, After: true, Mode: []memnet.Mode{memnet.Sever, memnet.REOF}[r.Intn(2)]}}
+		f.CutResumeOf, f.RefuseResumeOf = 0, 0
+		s.SlowLog, s.SlowLogMs = "Succeeded in resuming upstream", 10000
+	}
+	return s
+}
+
 func judge(o *reconlib.Outcome) vrun.Result {
 	s := o.S
 	if len(o.Ups) != len(s.Ups) {
@@ -135,11 +154,12 @@ func judge(o *reconlib.Outcome) vrun.Result {
 func TestC02NoLoss(t *testing.T) {
 	e := vrun.LoadEnv()
 	meta := vrun.Meta{Property: "C02", Workload: "TestC02NoLoss", Total: e.Pick(250, 60000),
-		Rule: "virtual time: one reliable upstream (immediate or size flush, 3-12 chunks before the first failure, writes continuing during and after every outage) plus 0-2 bystander upstreams of any QoS; the broker withholds the acks of every 2nd/3rd chunk (or none) until recovery, so a chosen subset is unacknowledged at each failure; 1-3 transport failures at message boundaries (before/after the n-th chunk, ack, ping, pong) in 4 failure modes, redial instant/1ms/3s/after dial errors, resume conflicts 0/1/3, optionally a further cut right after the resume response or at the n-th retransmitted chunk; library-default sent storage in 2 of 3 cases. Oracle over the union of chunks the broker received on all link incarnations: per sequence number one content, per point one sequence number, every accepted point present with its payload hash (unless the stream was reported closed: exempt, counted separately), close totals = written. non-trivial = a fault fired and the stream was not exempt; distinct = (storage, ack withholding, stream mix, fault positions)",
+		Rule: "virtual time: one reliable upstream (immediate or size flush, 3-12 chunks before the first failure, writes continuing during and after every outage) plus 0-2 bystander upstreams of any QoS; the broker withholds the acks of every 2nd/3rd chunk (or none) until recovery, so a chosen subset is unacknowledged at each failure; 1-3 transport failures at message boundaries (before/after the n-th chunk, ack, ping, pong) in 4 failure modes, redial instant/1ms/3s/after dial errors, resume conflicts 0/1/3, optionally a further cut right after the resume response or at the n-th retransmitted chunk; library-default sent storage in 2 of 3 cases; in a third of the cases the application's logger blocks 0.3-10 s at one step of the reconnect / resume procedure. Oracle over the union of chunks the broker received on all link incarnations: per sequence number one content, per point one sequence number, every accepted point present with its payload hash (unless the stream was reported closed: exempt, counted separately), close totals = written. non-trivial = a fault fired and the stream was not exempt; distinct = (storage, ack withholding, stream mix, fault positions)",
 		Assumptions: []string{"bounded progress: all obligations must be met after a cooperative broker has acknowledged everything and 20 further virtual seconds have passed",
 			"'received by the broker' is judged at the broker side of the transport for messages whose transport Write returned nil"}}
 	vrun.Loop(t, meta, 0, func(c *vrun.Case) vrun.Result {
 		s := gen(c.Rng)
+		s = decorate(c.Rng, c.Index, s)
 		var res vrun.Result
 		ok, dump := vrun.Watchdog(120*time.Second, func() {
 			func() {
